@@ -49,6 +49,40 @@ T.OUT = os.path.join(ROOT, "out")
 os.makedirs(T.OUT)
 
 
+ORIGINAL_COMMIT = "6178834"     # the commit before the plug-ins were rewritten
+
+
+def load_original():
+    """the two generator functions as they were before G4 (for the seeded comparison); None if unavailable"""
+    out = {}
+    saved = dict(T.GENERATORS)
+    try:
+        for plugin, gen in (("a64grammar", "A64Grammar"), ("x86parser", "X86Parser")):
+            p = subprocess.run(["git", "-C", os.path.dirname(TOOLS), "show", "%s:tools/gen/%s.py" % (ORIGINAL_COMMIT, plugin)],
+                               stdout=subprocess.PIPE, stderr=subprocess.PIPE, text=True)
+            if p.returncode != 0:
+                return None
+            path = os.path.join(ROOT, "orig_%s.py" % plugin)
+            with open(path, "w") as fh:
+                fh.write(p.stdout)
+            spec = importlib.util.spec_from_file_location("g4_orig_" + plugin, path)
+            mod = importlib.util.module_from_spec(spec)
+            spec.loader.exec_module(mod)
+            out[gen] = T.GENERATORS[gen][0]
+    finally:
+        T.GENERATORS.clear()
+        T.GENERATORS.update(saved)
+    return out
+
+
+def run_fn(fn, tree):
+    T.REPO = tree
+    try:
+        return ("ok", fn())
+    except Exception as e:
+        return ("fail", "%s: %s" % (type(e).__name__, e))
+
+
 # ------------------------------------------------------------------------------------------ edits
 def sub(old, new, count=1):
     def f(text):
@@ -467,6 +501,20 @@ HARMLESS_X86.append(("character classes spelt differently (alphas + nums, digits
         '            + pp.Word(pp.alphas + pp.nums + "_").setResultsName("name")\n            + pp.ZeroOrMore(directive_parameter)'),
     sub('pp.Optional(pp.Literal("(") + pp.Word(pp.nums) + pp.Literal(")"))', 'pp.Optional(pp.Literal("(") + pp.Word("0123456789") + pp.Literal(")"))'))}))
 
+HARMLESS_A64.append(("scale as a conditional expression, nested ifs merged", {A64: within("process_memory_address", chain(
+    sub('        scale = 1\n', ''),
+    rx(r'        if "index" in memory_address:\n            if "shift" in memory_address\["index"\]:\n                if (memory_address\["index"\]\["shift_op"\]\.lower\(\) in valid_shift_ops):\n +scale = (2 \*\* int\(memory_address\["index"\]\["shift"\]\[0\]\["value"\]\))\n',
+       lambda m: '        scaled = (\n            "index" in memory_address\n            and "shift" in memory_address["index"]\n            and %s\n        )\n'
+                 '        scale = %s if scaled else 1\n' % (m.group(1), m.group(2)))))}))
+HARMLESS_X86.append(("process_memory_address: operands built by conditional expressions, split(sep=...)", {
+    X86: within("process_memory_address", chain(
+        sub('        baseOp = None\n        indexOp = None\n', ''),
+        rx(r'        if base is not None:\n            baseOp = RegisterOperand\(\n                (name=base\["name"\], prefix=base\["prefix"\] if "prefix" in base else None)\n            \)\n',
+           lambda m: '        baseOp = RegisterOperand(%s) if base is not None else None\n' % m.group(1)),
+        rx(r'        if index is not None:\n            indexOp = RegisterOperand\(\n                (name=index\["name"\], prefix=index\["prefix"\] if "prefix" in index else None)\n            \)\n',
+           lambda m: '        indexOp = None if index is None else RegisterOperand(%s)\n' % m.group(1)))),
+    BASE: sub('file_content.split("\\n")', 'file_content.split(sep=chr(10))')}))
+
 REAL_A64 = [
     ("comment symbol // -> ;", {A64: sub('symbol_comment = "//"', 'symbol_comment = ";"')}),
     ("shift op ror dropped", {A64: sub('            ^ pp.CaselessLiteral("ror")\n', '')}),
@@ -649,6 +697,39 @@ def main():
             if VERBOSE or not noticed:
                 print("  %-8s %s real: %s -> %s%s" % ("ok" if noticed else "FAIL", gen, name, how, extra))
         counts[gen] = (n_h, len(harmless), n_r, len(real))
+    # ---- seeded breaking changes that touch the parser sources: old plug-in (commit before G4) vs new
+    seeded_dir = os.path.join(os.path.dirname(TOOLS), "seeded")
+    old_gen = load_original()
+    if old_gen and os.path.isdir(seeded_dir):
+        for sd in sorted(os.listdir(seeded_dir)):
+            pth = os.path.join(seeded_dir, sd, "patch.diff")
+            if not os.path.exists(pth):
+                continue
+            files = re.findall(r"^\+\+\+ b/(\S+)", open(pth).read(), flags=re.M)
+            if not files or any(not f.startswith("osaca/parser/") for f in files):
+                continue
+            try:
+                tree = tree_of(patch_file(pth))
+            except AssertionError as e:
+                print("  seeded %s: %s" % (sd, e))
+                continue
+            for gen in GEN:
+                T.REPO = base_tree
+                o0 = run_fn(old_gen[gen], base_tree)
+                o1 = run_fn(old_gen[gen], tree)
+                n1 = run(gen, tree)
+                old_noticed = o1[0] != "ok" or o1 != o0
+                new_noticed = n1[0] != "ok" or n1[1] != base_out[gen]
+                verdict = "ok" if (new_noticed or not old_noticed) else "FAIL"
+                if verdict == "FAIL":
+                    failures.append("seeded %s: %s noticed by the old plug-in but not by the new one" % (sd, gen))
+                if VERBOSE or verdict == "FAIL" or old_noticed or new_noticed:
+                    def how(r, noticed):
+                        return "unnoticed" if not noticed else ("fails" if r[0] != "ok" else "output changes")
+                    print("  %-4s seeded %-40s %-10s old: %-14s new: %s" % (verdict, sd, gen, how(o1, old_noticed), how(n1, new_noticed)))
+    else:
+        print("seeded comparison skipped (no git history / seeded directory)")
+
     for gen, (a, b, c, d) in counts.items():
         print("%s: harmless identical %d/%d, real mutations noticed %d/%d" % (gen, a, b, c, d))
     print("X86Parser real mutations noticed only through the dynamic grammar digest: %d %r" % (len(digest_only), digest_only))
